@@ -29,7 +29,7 @@ STUBS = ["io.BytesIO -> PyBytesIO (symbolic runs only)", "network reads -> IterU
          "(they do not read from the socket); max_buffer_headers is set out of reach there (the cap itself is C12)"]
 ASSUMPTIONS = ["pieces are non-empty; at most 3 pieces per obligation - more pieces follow inductively from the "
                "Unreader obligation (the logical stream is preserved by every read/unread)"]
-OUTSIDE = ["data longer than the per-obligation bound", "8192-byte reads (segment size does not occur below SocketUnreader.chunk)"]
+OUTSIDE = ["data longer than the per-obligation bound (except the chunk-size line limit, C06.cap_seg)", "8192-byte reads (segment size does not occur below SocketUnreader.chunk)"]
 
 
 def pieces(data, c1, c2):
@@ -352,6 +352,44 @@ def _cases(tier):
     return cs
 
 
+# ---- the chunk-size line limit: the verdict on a line near the limit does not depend on the cut (fix 2d6d3af) -------------
+def _cap_stream(dl):
+    from gunicorn.http import body as _body
+    cap = getattr(_body, "MAX_CHUNK_SIZE_LINE", 8190)
+    n = cap + dl                                     # length of the chunk-size line without its CRLF
+    return cap, n, b"5;" + b"a" * (n - 2) + b"\r\n" + b"hello\r\n"
+
+
+def _cap_cut(cap, n, total, i):
+    return [1, 4096, cap - 1, cap, cap + 1, cap + 2, n - 1, n, n + 1, n + 2, total - 1][i]
+
+
+def cap_seg(c1: int, c2: int) -> bool:
+    """
+    pre: 0 <= c1 <= 10 and 0 <= c2 <= 10
+    post: __return__
+    """
+    cap, n, stream = _cap_stream(CASE["dl"])
+    outs = []
+    for c in (_cap_cut(cap, n, len(stream), pick(c1, 0, 10)), _cap_cut(cap, n, len(stream), pick(c2, 0, 10))):
+        if not 0 < c < len(stream) or c > 8192 or len(stream) - c > 8192:
+            return True                              # reads are non-empty and at most 8192 bytes
+        outs.append(k_chunk_size([stream[:c], stream[c:]]))
+    return outs[0] == outs[1]
+
+
+def cap_seg_twin(c1: int, c2: int) -> bool:
+    """
+    pre: 0 <= c1 <= 10 and 0 <= c2 <= 10
+    post: __return__
+    """
+    cap, n, stream = _cap_stream(CASE["dl"])
+    c = _cap_cut(cap, n, len(stream), pick(c1, 0, 10))
+    if not 0 < c < len(stream) or c > 8192 or len(stream) - c > 8192:
+        return True
+    return k_chunk_size([stream[:c], stream[c:]])[0] == "ok"      # refuted: a line above the limit is refused
+
+
 OBLIGATIONS = [
     Ob("C06.seg", "seg", cases={"quick": _cases("quick"), "thorough": _cases("thorough")},
        timeout={"quick": 600, "thorough": 2400},
@@ -362,6 +400,10 @@ OBLIGATIONS = [
        bound="the real RequestParser over 9 concrete streams (PROXY line with 3 request-line limits, request line at its limit, chunked "
              "with extension / trailers / pipelined follower, Content-Length with follower, leading CRLF, folding, missing chunk CRLF): "
              "every single cut, every cut followed by a 1- or 2-byte piece, and byte-by-byte, against the unsplit feed"),
+    Ob("C06.cap_seg", "cap_seg", cases=[{"dl": d} for d in (-3, -2, -1, 0, 1, 2, 3)], timeout=900,
+       bound="chunk-size line (size + extension) of MAX_CHUNK_SIZE_LINE-3 .. +3 bytes followed by chunk data, fed as two reads: every "
+             "pair of cut positions from {1, 4096, cap-1..cap+2, line end-1..+2, last byte} with both reads <= 8192 bytes gives the same outcome"),
+    Ob("C06.cap_seg.twin", "cap_seg_twin", cases=[{"dl": 2}], expect="refute", timeout=120),
     Ob("C06.seg.twin", "seg_twin", cases=[_case("read_line", 4, 1, a=(0, 3)), _case("head", 5, 1, a=(0, 3)),
                                           _case("chunk_size", 4, 1), _case("trailers", 4, 1),
                                           _case("length", 3, 1, a=(0, 4), b=(0, 4))],
